@@ -485,6 +485,9 @@ def whole_document(ctx, rule):
     ok = calls == ["Encodable::as_raw_sourcemap(arg1)", "ser::to_writer(arg2,Encodable::as_raw_sourcemap(arg1))"]
     rets = sorted(sh for sh, _, _ in q.def_shapes(e, 0, {}))
     ok = ok and any(r.startswith("FromResidual::from_residual(break(Try::branch(ser::to_writer(") for r in rets) and any(r.startswith("Result::Ok{") for r in rets) and len(rets) == 2
+    # the same as a tail expression: `to_writer(..).map_err(Error::from)` (Ok(()) passes through, the error is converted)
+    W = "ser::to_writer(arg2,Encodable::as_raw_sourcemap(arg1))"
+    ok = ok or (calls == ["Encodable::as_raw_sourcemap(arg1)", W, "Result::map_err(%s,fn:From::from)" % W] and rets == ["Result::map_err(%s,fn:From::from)" % W])
     ctx.check(ok, rule, e.path, "to_writer", "encode serialises the raw map with serde_json::to_writer into the caller's sink and propagates its error", detail=str(calls) + str(rets)[:200])
     from callgraph import CallGraph
     cg = CallGraph(ctx.facts)
